@@ -1,6 +1,7 @@
 package c04
 
 import (
+	"strings"
 	"fmt"
 	"testing"
 
@@ -9,7 +10,14 @@ import (
 	"verif/ev"
 )
 
-var known = ev.Matcher[Case]{}
+var known = ev.Matcher[Case]{
+	// TiDB's planner plans every change on its own and orders them by fixed priorities (ModifyForeignKey before
+	// AddTable and DropTable): a foreign key that keeps its name while it moves to a table created by the same plan is
+	// re-pointed before that table exists; moved to the end instead, its old parent would be dropped under it
+	"tidb-repointed-foreign-key-misordered": func(c Case, err error) bool {
+		return c.Dialect == "mysql" && c.Flavour == "tidb" && c.Names == 1 && repointed(c) && strings.Contains(err.Error(), "violates the database's dependency rules")
+	},
+}
 
 const rule = "exhaustive: every directed FK graph with self loops over n tables (n<=3 quick, n<=4 thorough; 2^(n*n) graphs) x every assignment of tables to {kept, created, dropped} " +
 	"(edges among kept+dropped tables live in the current schema, edges among kept+created tables in the desired one, so kept tables gain FKs to created and lose FKs to dropped tables) " +
@@ -86,6 +94,9 @@ func genRandom(t *rapid.T) Case {
 	n := rapid.IntRange(5, 8).Draw(t, "n")
 	c := Case{N: n, Dialect: rapid.SampledFrom([]string{"mysql", "postgres"}).Draw(t, "dialect"), Mode: rapid.IntRange(0, 3).Draw(t, "mode"),
 		Multi: rapid.Bool().Draw(t, "multi"), Names: rapid.IntRange(0, 1).Draw(t, "names"), Split: rapid.IntRange(0, 2).Draw(t, "split") == 0}
+	if c.Dialect == "mysql" {
+		c.Flavour = rapid.SampledFrom([]string{"", "", "mysql8", "mysql57", "maria", "tidb"}).Draw(t, "flavour")
+	}
 	for i := 0; i < n; i++ {
 		c.Role = append(c.Role, rapid.SampledFrom([]int{kept, kept, created, dropped}).Draw(t, "role"))
 	}
@@ -114,8 +125,11 @@ func mkCheck(col *ev.Collector) func(Case) error {
 		if c.Split {
 			col.Class(c.Dialect + "/two-schemas-with-same-named-tables/" + sh)
 		}
+		if c.Flavour != "" {
+			col.Class("mysql-family/" + c.Flavour + "/" + sh)
+		}
 		if n > 0 {
-			col.NonTrivial(fmt.Sprintf("%d|%v|%v|%v|%s|%d|%d|%v", c.N, c.Role, c.FromE, c.ToE, c.Dialect, c.Mode, c.Names, c.Split))
+			col.NonTrivial(fmt.Sprintf("%d|%v|%v|%v|%s|%d|%d|%v", c.N, c.Role, c.FromE, c.ToE, c.Dialect, c.Mode, c.Names, c.Split) + c.Flavour)
 		}
 		col.Sample(c.Dialect+"/"+sh, c)
 		return err
@@ -157,6 +171,23 @@ func TestCheck(t *testing.T) {
 								return
 							}
 							c.Split = false
+						}
+						// the planners of drivers opened against the MySQL family (TiDB orders changes by its own priorities)
+						if d == "mysql" && mode == 0 && len(c.FromE)+len(c.ToE) > 0 {
+							for _, fl := range []string{"tidb", "maria"} {
+								c.Flavour = fl
+								if !ev.Each(col, "exhaustive-mysql-family", c, check, known) {
+									return
+								}
+								if repointed(c) {
+									c.Names = 1
+									if !ev.Each(col, "exhaustive-mysql-family", c, check, known) {
+										return
+									}
+									c.Names = 0
+								}
+							}
+							c.Flavour = ""
 						}
 						if repointed(c) {
 							c.Names = 1
